@@ -27,6 +27,12 @@ CHECKS = {
         "With every completion withheld the number of items taken must stop by itself at the pre-dispatch amount (all of them for 'all'); releasing one batch at a time, pulled-completed must stay within G = B0*b + b*n_jobs, in-flight batches within B0 and each completion may let at most one slice through; after a registered failure (also one delivered while the caller is still in its initial dispatch loop) or a closed generator no further item may be taken whatever completes later; free-running seeded schedules check the same invariants at every pull with stolen in-flight slots accounted, and re-entrancy of the input.",
         "G is derived from the dispatch arithmetic (confirmed on the tree); the start-phase steal is recorded as a known finding and tolerated only within its accounting.",
         "3/C09", "scripted-backend"),
+    "C15": (
+        "exploration",
+        "runtime monitor on task-side event logs: (pid, native thread id, start, end) per task on the system-wide monotonic clock; sweep-line high-water mark, worker-pid sets and thread containment of nested levels, under per-case affinity masks and LOKY_MAX_CPU_COUNT",
+        "Each case is a subprocess with an affinity mask (1, 2, 5, 16 CPUs) and a LOKY_MAX_CPU_COUNT value (unset, 0, 1, 3, 64) on loky / threading / multiprocessing / the default backend: cpu_count() and effective_n_jobs(n) for every n in [-2*cpus-1, 2*cpus+1] are compared with an independent re-derivation (min of OS count, mask, cgroup quota, env var; floor 1), Parallel(n_jobs=0) must raise, several n_jobs values are run for real with 3*resolved+2 overlapping tasks - the high-water mark of simultaneously running tasks and the number of worker pids must not exceed the resolved n_jobs, n_jobs resolving to 1 must run in the calling thread - and nesting shapes of depth 3 must keep every deeper task in a level-0 worker pid and level >= 2 tasks in their parent task's thread.",
+        "Timestamps are taken inside the tasks with CLOCK_MONOTONIC; fan-out is limited so that concurrency really happens; the cgroup quota present in the sandbox is whatever the image provides.",
+        "3/C15", "harness"),
     "C16": (
         "exploration",
         "stepped schedule monitor: the check completes batches one at a time and pulls every due result with no other batch released; abandonment (close / drop+gc / overlapping call) at seeded points; gated runs on threading and loky",
@@ -93,6 +99,12 @@ CHECKS = {
         "Stores of 0-12 entries are built by real cached calls (two functions, optional compression, zero-size entries), access times set explicitly (ties, increasing, spread), and reduce_size is called with limit triples including None, 0, exact fit (also spelled as K/M strings), fit-1 and ages between entries; survivors must meet every limit, be no older than any evicted entry, the eviction must be minimal, survivors must hit without executing and evicted entries recompute exactly once.",
         "No concurrent writer; age deadlines kept >= 60 s from any entry; ties may break either way; the store's own notion of entry size (sum of file sizes) is used.",
         "3/C18", "harness"),
+    "C20": (
+        "exploration",
+        "reference-model monitor of the real resource-tracker process: seeded request scripts from 1-3 real client processes (loky ResourceTracker API on an inherited pipe), sentinel-based synchronisation after every request, disk state compared with a ref-count registry; clients exit or are SIGKILLed at seeded positions",
+        "The tracker's main() runs as a real process fed by a pipe whose write end is inherited by 1-3 client processes; scripts of REGISTER / MAYBE_UNLINK / UNREGISTER over files, folders and files inside tracked folders are salted with malformed lines (garbage, non-ASCII, unknown type or command, decrement / unregister of unknown names) and client exits or SIGKILLs. After every request a sentinel proves the tracker has processed it; then every tracked path, folder and decoy must exist exactly when the ref-count model says so, the tracker must still be alive, and after the last descriptor is closed it must exit 0 having deleted exactly what was still registered.",
+        "FIFO pipe + sequential tracker loop justify the sentinel; a file inside a folder whose own count reaches zero disappears with the folder (modelled); the end-to-end memmapping layer (TemporaryResourcesManager with numpy) is exercised by C19's worker runs, not here.",
+        "3/C20", "harness"),
 }
 
 PENDING_REASON = "check not built yet in this tree (see DESIGN.md section 8 build order); nothing is claimed for it"
